@@ -61,7 +61,7 @@ theorem flushedA_dir :
 theorem writeResponse_keysP (P : Str → Prop) :
     ∀ (fs : List RFile) (m m' : Mem),
       (∀ k ∈ m.keys, P k) →
-      (∀ f ∈ fs, f.insertionPoint = [] → ∀ k, validatePath f.name = .ok k → P k) →
+      (∀ f ∈ fs, f.getIP = [] → ∀ k, validatePath f.getName = .ok k → P k) →
       writeResponse m fs = .ok m' → ∀ k ∈ m'.keys, P k := by
   intro fs
   induction fs with
@@ -78,7 +78,7 @@ theorem writeResponse_keysP (P : Str → Prop) :
       have hm1 : ∀ k' ∈ m1.keys, P k' := by
         intro k' hk'
         rcases hkeys k' hk' with rfl | hold
-        · by_cases hip : f.insertionPoint = []
+        · by_cases hip : f.getIP = []
           · exact hf f (by simp) hip _ hk
           · exact hm _ (hins hip)
         · exact hm k' hold
@@ -174,7 +174,7 @@ theorem addResponseA_fwd {fs : FS} {cwd : Str} {bs bs' : Buckets} {p : PluginRes
     (h : addResponseA fs cwd bs p = .ok bs') :
     (∀ o k, HasKey bs o k → HasKey bs' o k) ∧ (∀ o, HasBucket bs o → HasBucket bs' o) ∧
     HasBucket bs' (absPath cwd p.out) ∧
-    ∀ f ∈ p.files, ∃ k, validatePath f.name = .ok k ∧ HasKey bs' (absPath cwd p.out) k := by
+    ∀ f ∈ p.files, ∃ k, validatePath f.getName = .ok k ∧ HasKey bs' (absPath cwd p.out) k := by
   unfold addResponseA at h
   simp only at h
   split at h
@@ -205,7 +205,7 @@ theorem addResponsesA_fwd (fs : FS) (cwd : Str) :
     ∀ (ps : List PluginResp) (bs bs' : Buckets), addResponsesA fs cwd bs ps = .ok bs' →
       (∀ o k, HasKey bs o k → HasKey bs' o k) ∧ (∀ o, HasBucket bs o → HasBucket bs' o) ∧
       ∀ p ∈ ps, HasBucket bs' (absPath cwd p.out) ∧
-        ∀ f ∈ p.files, ∃ k, validatePath f.name = .ok k ∧ HasKey bs' (absPath cwd p.out) k
+        ∀ f ∈ p.files, ∃ k, validatePath f.getName = .ok k ∧ HasKey bs' (absPath cwd p.out) k
   | [], bs, bs', h => by
     simp [addResponsesA] at h; subst h
     exact ⟨fun _ _ hk => hk, fun _ hb => hb, by simp⟩
